@@ -1,6 +1,7 @@
 import Rtcm.Model.Message
 import Rtcm.Gen.Messages
 import Rtcm.Gen.Features
+import Rtcm.Props.C13
 /-!
 # C14  Decode outcome is classified by message number, exhaustively
 
@@ -22,6 +23,12 @@ theorem empty_iff_no_number (cfg : Cfg) (tbl : List MsgRow) (f : Frame) :
     | some row =>
       simp only
       split <;> simp
+
+/-- Decoding an accepted frame yields Empty exactly when its payload is shorter than two bytes. -/
+theorem empty_iff_short (cfg : Cfg) (tbl : List MsgRow) (d : List UInt8) (f : Frame)
+    (h : frameNew d = .ok f) : decodeFrame cfg tbl f = .ok .empty ↔ f.dataLen < 2 := by
+  rw [empty_iff_no_number, C13.message_number_spec d f h]
+  split <;> simp <;> omega
 
 /-- For a number outside the table the outcome is MsgNotSupported carrying that number. -/
 theorem unsupported_of_not_in_table (cfg : Cfg) (tbl : List MsgRow) (f : Frame) (n : Nat)
